@@ -62,7 +62,7 @@ class Port(Device, OutMixIn):
 
         byte_count = self.byte_size + packet.size
 
-        if not self.element_id:
+        if self.element_id:
             packet.perhop_time[self.element_id] = self.env.now
 
         if self.qlimit is None:
